@@ -9,7 +9,8 @@ EXPL = ("R14.1 (A4 + call graph + polarity): each liveness query (Addr::stopped,
         "(stopped = the poll is ready, running = its negation). A query that only peeks the Shared sees a result only "
         "after some clone was polled, i.e. lies when nobody awaited the actor. R14.2: Shared::peek is used nowhere, and "
         "nobody but the queries decides liveness (the registry operations call the queries). Not decided: a race inside "
-        "Shared::poll between threads (primitive behaviour).")
+        "Shared::poll between threads (primitive behaviour). R14.4: a handle whose own termination future is polled in place "
+        "(impl Future for Addr) keeps a share, so it stays usable after it was awaited to completion.")
 
 QUERIES = {"addr::Addr::<A>::stopped": "S", "addr::Addr::<A>::running": "R", "addr::weak_addr::WeakAddr::<A>::stopped": "S"}
 SHARED = "futures_util::future::future::shared::Shared<futures_channel::oneshot::Receiver<()>>"
@@ -86,7 +87,39 @@ def check_queries(ctx, fx, RULE, suffix):
         ctx.require(pol == {want}, RULE, q + suffix, "the liveness query must poll its handle's termination future and report %s: derived %s%s" % ("stopped=ready" if want == "S" else "running=not ready", sorted(pol), " — Shared::peek only sees a result some clone has already polled out" if "PEEK" in pol or any("peek" in p for p in pol) else ""), fn=q, site=f["loc"], detail=sorted(pol))
 
 
+def check_inplace_polls(ctx, fx, RULE):
+    """A Shared that is polled to completion *in place* gives up its share of the future: the handle could then not be
+    cloned, awaited again or asked stopped() (cloning and polling it panics). Every in-place poll of a handle's own
+    termination future must restore the share on the Ready path (keep a clone taken before the poll)."""
+    n = 0
+    for f in fx.d["fns"]:
+        b = ctx.body(fx, f)
+        for bi, t in b.normal_calls():
+            c = t.get("callee") or ""
+            if not (c.endswith(ACTIVE) and SHARED in " ".join(t.get("argtys", []))):
+                continue
+            direct = b.origins(t["args"][0], through_calls="plumbing")
+            direct = {o for o in direct if o.kind in ("arg", "upvar")}
+            if not direct:
+                continue  # a clone (or something else than the handle's own field) is polled
+            n += 1
+            # restore idiom: a clone of the same place made in this function is assigned back to it
+            restored = False
+            for l, stores in list(b.partial.items()):
+                for (_bi, _si, st) in stores:
+                    if st["r"]["k"] != "use":
+                        continue
+                    for o in b.origins(st["r"]["o"], through_calls=False):
+                        if o.kind == "call" and (b.call_at(o).get("callee") or "").endswith("Clone::clone") and SHARED in " ".join(b.call_at(o).get("argtys", [])):
+                            src = b.origins(b.call_at(o)["args"][0], through_calls="plumbing")
+                            if {(x.kind, x.site, x.proj) for x in src} == {(x.kind, x.site, x.proj) for x in direct}:
+                                restored = True
+            ctx.require(restored, RULE, "in-place-poll-restores:%s" % f["def"], "the handle's own termination future is polled in place without keeping a share: after completion this handle (and clones / weak addresses made from it) panic on stopped(), clone().await, …", fn=f["def"], site=t["l"])
+    return n
+
+
 def check_rest(ctx, fx):
+    check_inplace_polls(ctx, fx, "R14.4")
     peeks = [(f["def"], t["l"]) for f, bi, t in graph.all_calls(fx, lambda t: (t.get("callee") or "").endswith("::peek") and "shared" in (t.get("callee") or ""))]
     ctx.require(not peeks, "R14.2", "no-peek", "Shared::peek decides liveness somewhere: %s" % peeks, site=peeks[0][1] if peeks else "crate", detail={"positive_control": "callee suffix ::peek on futures_util::future::future::shared"})
     # who turns the termination future into a decision: the queries, the Future impl of Addr, and helpers only they call
